@@ -1281,6 +1281,8 @@ class Fn:
     def _in(self, l, r, negate):
         lv = self.val(l)          # Python evaluates the left operand first
         special = self.x3_in(lv, r)
+        if special is None:
+            special = self.x4_in_constant(lv, r)
         if special is not None:
             t = f"(← {special})"
             return f"!{t}" if negate else t
@@ -1288,6 +1290,34 @@ class Fn:
         rv = self.val(r)
         t = f"(← PyRt.contains {rv} {lv})"
         return f"!{t}" if negate else t
+
+    # --- x4: `x in <named constant collection>` — a module-level or class-level set / frozenset of str / int constants
+    # (hoisting an inline display to a named constant is a common harmless refactor).  Members are emitted sorted: the
+    # iteration order of a set is not observable through `in`, and `==` of str / int members has no effect.
+    def x4_constant_set(self, r):
+        v = _MISSING
+        if isinstance(r, ast.Name) and r.id not in self.locals and r.id not in self.bound_stack():
+            v = self.globals.get(r.id, _MISSING)
+        elif isinstance(r, ast.Attribute):
+            c = None
+            if isinstance(r.value, ast.Name) and r.value.id not in self.locals and r.value.id not in self.bound_stack() \
+                    and inspect.isclass(self.globals.get(r.value.id)):
+                c = self.globals[r.value.id]
+            else:
+                c = self.static_class(r.value)
+                if c is not None and any(self.ctx.lookup(d, r.attr) is not self.ctx.lookup(c, r.attr) for d in self.ctx.subclasses(c)):
+                    c = None                     # a tracked subclass overrides it
+            if c is not None:
+                v = self.ctx.lookup(c, r.attr)
+        if isinstance(v, (set, frozenset)) and v and all(type(x) in (str, int) for x in v):
+            return sorted(v, key=lambda x: (type(x).__name__, x))
+        return None
+
+    def x4_in_constant(self, lv, r):
+        members = self.x4_constant_set(r)
+        if members is None:
+            return None
+        return "PyRt.contains_set (PyVal.tuple [" + ", ".join(lconst(x) for x in members) + f"]) {lv}"
 
     def is_pure(self, e) -> bool:
         saved_tmp, saved_lines = self.tmp, list(self.lines)
